@@ -67,9 +67,9 @@ function handle(req) {
       ctx.__ij = c.ij === undefined ? null : c.ij;
       // data crosses the realm boundary as JSON so that arrays and objects are native to the context
       const out = vm.runInContext(
-          '(function(){ var d = JSON.parse(' + JSON.stringify(JSON.stringify(ctx.__data)) + ');' +
-          ' var ij = JSON.parse(' + JSON.stringify(JSON.stringify(ctx.__ij)) + ');' +
-          ' return ' + c.name + '(d, null, ij); })()', ctx, {timeout: 5000});
+          '(function(){ var __verif_d = JSON.parse(' + JSON.stringify(JSON.stringify(ctx.__data)) + ');' +
+          ' var __verif_ij = JSON.parse(' + JSON.stringify(JSON.stringify(ctx.__ij)) + ');' +
+          ' return ' + c.name + '(__verif_d, null, __verif_ij); })()', ctx, {timeout: 5000});
       res.results.push({ok: true, out: String(out), type: typeof out});
     } catch (e) {
       res.results.push({ok: false, error: describe(e)});
